@@ -13,6 +13,26 @@ G == IF D.kind = "int" THEN [kind |-> "int", p |-> HN(D.p), q |-> HN(D.q), g |->
      ELSE MkCurve(HN(D.Q), HN(D.d), HN(D.L), HN(D.By))
 
 (* ---- integer groups ------------------------------------------------------ *)
+(* values with a regular bit structure (m * 2^k and neighbours, p minus them): *)
+(* membership code that manipulates bits - Jacobi / Legendre shortcuts, window *)
+(* tables, word-wise loops - goes wrong on such values, not on random ones.    *)
+(* Bit positions: all of them when D.step = 1, otherwise k with k mod step in  *)
+(* {0, 1, step-1}.  Absent step: no structured family.                         *)
+BigPow2(k) == NFromBytes(<<2 ^ (k % 8)>> \o [i \in 1..(k \div 8) |-> 0])
+RECURSIVE SeqOfSet(_)
+SeqOfSet(S) == IF S = {} THEN <<>> ELSE LET x == CHOOSE y \in S : TRUE IN <<x>> \o SeqOfSet(S \ {x})
+Structured ==
+  IF "step" \notin DOMAIN D THEN <<>>
+  ELSE LET p == G.p  n == IG_ESize(G)  step == D.step
+           pos == {k \in 0..(NBitLen(p) - 1) : step = 1 \/ k % step \in {0, 1, step - 1}}
+           vals == UNION {
+                     LET v == NMul(NLit(m), BigPow2(k)) IN
+                     {v, NAdd(v, NLit(1)), NSub(v, NLit(1)), NMod(NSub(NMul(p, NLit(8)), v), p),
+                      IG_Mul(G, G.g, BigPow2(k))}                           \* g^(2^k): a member with structure in the exponent
+                     : <<m, k>> \in {1, 3, 5} \X pos }
+           ok == {v \in vals : NLt(v, p)}
+           seqOf == SeqOfSet(ok)
+       IN [i \in 1..Len(seqOf) |-> [k |-> "structured value", b |-> NToBytes(seqOf[i], n)]]
 IntCases ==
   LET p == G.p  n == IG_ESize(G)  one == NLit(1)
       enc(v) == NToBytes(v, n)
@@ -27,12 +47,16 @@ IntCases ==
         [k |-> "minus g",     b |-> enc(NSub(p, G.g))],
         [k |-> "g squared",   b |-> enc(IG_Mul(G, G.g, NLit(2)))],
         [k |-> "g^(q-1)",     b |-> enc(IG_Mul(G, G.g, NSub(G.q, one)))],
+        [k |-> "g^3",         b |-> enc(IG_Mul(G, G.g, NLit(3)))],
+        [k |-> "g^-3",        b |-> enc(IG_Mul(G, G.g, NSub(G.q, NLit(3))))],
+        [k |-> "minus g^3",   b |-> enc(NSub(p, IG_Mul(G, G.g, NLit(3))))],
         [k |-> "truncated",   b |-> SubSeq(gB, 1, n - 1)],
         [k |-> "tail cut",    b |-> SubSeq(gB, 2, n)],
         [k |-> "extended 00", b |-> gB \o <<0>>],
         [k |-> "prefixed 00", b |-> <<0>> \o gB],
         [k |-> "doubled",     b |-> gB \o gB],
         [k |-> "empty",       b |-> <<>>] >>
+  \o Structured
   \o (IF NBitLen(NAdd(p, one)) <= 8 * n
       THEN << [k |-> "p+1 (wraps to identity if reduced)", b |-> NToBytes(NAdd(p, one), n)] >> ELSE <<>>)
   \o (IF NBitLen(NAdd(p, G.g)) <= 8 * n
@@ -60,6 +84,9 @@ EdCases ==
   IN [k \in 1..8 |-> [k |-> "torsion point", b |-> EdEnc(G, tors[k - 1])]]
      \o [k \in 1..7 |-> [k |-> "B + torsion (order 2L/4L/8L)", b |-> EdEnc(G, AffAdd(G, B, tors[k]))]]
      \o [k \in 1..7 |-> [k |-> "2B + torsion", b |-> EdEnc(G, AffAdd(G, B2, tors[k]))]]
+     \o [k \in 1..7 |-> [k |-> "-B + torsion (one of them is the twin (x, -y) of B)", b |-> EdEnc(G, AffAdd(G, AffNeg(G, B), tors[k]))]]
+     \o << [k |-> "3B", b |-> EdEnc(G, AffMul(G, B, NLit(3)))],
+           [k |-> "-3B", b |-> EdEnc(G, AffNeg(G, AffMul(G, B, NLit(3))))] >>
      \o << [k |-> "order 8L point", b |-> EdEnc(G, W)],
            [k |-> "base point",     b |-> eB],
            [k |-> "2B",             b |-> EdEnc(G, B2)],
